@@ -92,6 +92,8 @@ pub struct OpRec {
     pub nested_in: Option<u32>,
     pub injects_panic: bool,
     pub blocking_steps: bool,
+    /// (state tag, queued jobs) of the object's queue just before the call was made
+    pub state_at_inv: Option<(u8, usize)>,
 }
 
 #[derive(Clone, Debug)]
@@ -108,6 +110,8 @@ pub struct HandleRec {
     pub await_started: Option<u64>,
     pub wakes: u32,
     pub panicked: Option<String>,
+    /// when and on which task waiting for the handle ended in a panic
+    pub panicked_at: Option<(u64, TaskId)>,
     pub resumed_at: Option<u64>,
     /// waited for with SchedulerFuture::sync(): a sync call, which also waits for whatever was queued before it
     pub sync_wait: bool,
@@ -418,6 +422,7 @@ impl World {
                 nested_in: None,
                 injects_panic: false,
                 blocking_steps: false,
+                state_at_inv: None,
             })
             .collect();
         fn fill(ops: &mut Vec<OpRec>, op: &Op, phase: usize, parent: Option<u32>) {
@@ -465,6 +470,7 @@ impl World {
             await_started: None,
             wakes: 0,
             panicked: None,
+            panicked_at: None,
             resumed_at: None,
             sync_wait: false,
         };
